@@ -2992,7 +2992,9 @@ func treasureToKeyValuePair(treasureInterface treasure.Treasure, t *hydrapb.Trea
 		modifiedBy := treasureInterface.GetModifiedBy()
 		t.UpdatedBy = &modifiedBy
 	}
-	if treasureInterface.GetExpirationTime() > 0 {
+	// 0 means "never expires"; every other value is an expiry the engine acts on (a pre-epoch one is
+	// expired, indexed and claimed), so it has to be visible to the reader as well
+	if treasureInterface.GetExpirationTime() != 0 {
 		t.ExpiredAt = timestamppb.New(time.Unix(0, treasureInterface.GetExpirationTime()))
 	}
 
